@@ -386,6 +386,94 @@ def r7_evaluate_constraints(ctx):
         raise AnchorLost("evaluate_constraints: get_boundary_constraints/get_transition_constraints calls not found")
 
 
+TC_NEW = "winter_air::air::transition::TransitionConstraints::<E>::new"
+TC_COMBINE = "winter_air::air::transition::TransitionConstraints::<E>::combine_evaluations"
+BC_NEW = "winter_air::air::boundary::BoundaryConstraints::<E>::new"
+
+
+def _split_site(f):
+    cs = [(bi, t) for bi, t in f.calls() if (callee_of(t) or {}).get("name") == "split_at" and not f.is_cleanup(bi)]
+    if not cs:
+        raise AnchorLost("%s: split_at of the composition coefficients not found" % f.key)
+    return cs[0]
+
+
+def r8_coefficient_wiring(ctx):
+    """every constraint receives its own composition coefficient: the coefficient vector is split at
+    the number of main-segment constraints and each half is paired with the matching half of the
+    constraints, on the construction side and on the combination side."""
+    p = ctx.p
+    f = p.fn(TC_NEW)
+    bi, t = _split_site(f)
+    sl = arg_slice(f, t, 1)
+    names = names_in(f, sl)
+    fields = set(slice_field_bases(sl))
+    ok = "len" in names and "main_transition_constraint_degrees" in fields and "num_transition_constraints" not in names \
+        and "aux_transition_constraint_degrees" not in fields and 2 in arg_slice(f, t, 0)["args"]
+    ctx.ob("R8", "transition-coefficients-split-at-main-count", ok,
+           "composition_coefficients.split_at(main_transition_constraint_degrees.len()): main constraints get the first coefficients, aux constraints the rest"
+           if ok else "the coefficient vector is not split at the number of main transition constraints (split point derives from %s / %s)" % (
+               sorted(x for x in names if x), sorted(fields)), f, t["sp"]["at"])
+    agg = [s for b in f.blocks if not b.get("cleanup") for s in b["s"] if s["k"] == "assign" and s["rv"][0] == "agg"
+           and s["rv"][1].get("adt") == "winter_air::air::transition::TransitionConstraints"]
+    if not agg:
+        raise AnchorLost("TransitionConstraints::new: struct literal not found")
+    flds = agg[0]["rv"][1]["fields"]
+    res = f.forward_locals([t["dest"][0]], through_calls=())
+    pair_ok = True
+    for coef, half, deg in (("main_constraint_coef", ".0", "main_transition_constraint_degrees"),
+                            ("aux_constraint_coef", ".1", "aux_transition_constraint_degrees")):
+        op = agg[0]["rv"][2][flds.index(coef)]
+        csl = f.slice_of_operand(op, at=agg[0]["_pos"])
+        from_half = any(pl[0] in res and any(isinstance(e, str) and e.startswith(half + ":") for e in pl[1:]) for pl in csl["places"])
+        dop = agg[0]["rv"][2][flds.index(coef.replace("coef", "degrees"))]
+        dsl = f.slice_of_operand(dop, at=agg[0]["_pos"])
+        pair_ok &= from_half and deg in slice_field_bases(dsl)
+    ctx.ob("R8", "transition-halves-paired-with-their-degrees", pair_ok,
+           "main coefficients = first half with the main degrees, aux coefficients = second half with the aux degrees" if pair_ok else
+           "the coefficient halves are not paired with the matching constraint degrees", f, agg[0]["sp"]["at"])
+    g = p.fn(TC_COMBINE)
+    zips = [(b2, t2) for b2, t2 in g.calls() if (callee_of(t2) or {}).get("name") == "zip" and not g.is_cleanup(b2)]
+    seen = set()
+    for b2, t2 in zips:
+        a, b = arg_slice(g, t2, 0), arg_slice(g, t2, 1)
+        ev = 2 if 2 in a["args"] else (3 if 3 in a["args"] else None)
+        cf = [x for x in ("main_constraint_coef", "aux_constraint_coef") if x in slice_field_bases(b)]
+        if ev and cf:
+            seen.add((ev, cf[0]))
+    good = seen == {(2, "main_constraint_coef"), (3, "aux_constraint_coef")}
+    ctx.ob("R8", "combine_evaluations-pairs-evaluations-with-coefficients", good,
+           "main evaluations are zipped with main_constraint_coef and aux evaluations with aux_constraint_coef" if good else
+           "combine_evaluations pairs %s" % sorted(seen), g)
+    h = p.fn(BC_NEW)
+    bi, t = _split_site(h)
+    sl = arg_slice(h, t, 1)
+    ln = [b for b in sl["calls"] if (callee_of(h.term(b)) or {}).get("name") == "len"]
+    main_len = False
+    for b in ln:
+        inner = arg_slice(h, h.term(b), 0)
+        main_len = main_len or any(h.local_name(x) == "main_assertions" for x in inner["locals"])
+    ok = main_len and 4 in arg_slice(h, t, 0)["args"] and not any(h.local_name(x) == "aux_assertions" for x in sl["locals"])
+    ctx.ob("R8", "boundary-coefficients-split-at-main-count", ok,
+           "boundary coefficients are split at main_assertions.len()" if ok else
+           "boundary coefficients are not split at the number of main assertions", h, t["sp"]["at"])
+    gcs = [(b2, t2) for b2, t2 in h.calls() if (callee_of(t2) or {}).get("name") == "group_constraints" and not h.is_cleanup(b2)]
+    res = h.forward_locals([t["dest"][0]], through_calls=())
+    wired = set()
+    for b2, t2 in gcs:
+        a0 = arg_slice(h, t2, 0)
+        a2 = arg_slice(h, t2, 2)
+        which = "main" if any(h.local_name(x) == "main_assertions" for x in a0["locals"]) else (
+            "aux" if any(h.local_name(x) == "aux_assertions" for x in a0["locals"]) else "?")
+        half = ".0" if any(pl[0] in res and any(isinstance(e, str) and e.startswith(".0:") for e in pl[1:]) for pl in a2["places"]) else (
+            ".1" if any(pl[0] in res and any(isinstance(e, str) and e.startswith(".1:") for e in pl[1:]) for pl in a2["places"]) else "?")
+        wired.add((which, half))
+    good = wired == {("main", ".0"), ("aux", ".1")}
+    ctx.ob("R8", "boundary-halves-paired-with-their-assertions", good,
+           "group_constraints(main assertions, first half) and group_constraints(aux assertions, second half)" if good else
+           "boundary coefficient halves are wired %s" % sorted(wired), h)
+
+
 def run(ctx):
     ctx.rule("R1", "acceptable_options.validate(&proof)? is propagated and dominates every protocol step of verify()", 2)
     ctx.rule("R2", "coin seed = proof.context.to_elements() ++ pub_inputs.to_elements(); AIR built from proof.trace_info/options and the same pub_inputs; each arm passes (air, channel(air, proof)?, coin) on", 7)
@@ -394,9 +482,10 @@ def run(ctx):
     ctx.rule("R5", "proof-of-work: check_leading_zeros(nonce) < grinding_factor -> Err dominates draw_integers; same nonce", 3)
     ctx.rule("R6", "reader results propagated; acceptance = FRI verdict over compose_columns(checked data); no discarded Result in verifier crates", 5)
     ctx.rule("R7", "evaluate_constraints: result combines transition evaluations and every main and aux boundary group", 5)
+    ctx.rule("R8", "composition coefficients are split at the number of main-segment constraints / assertions and each half is paired with its own constraints (TransitionConstraints::new, combine_evaluations, BoundaryConstraints::new)", 5)
     for rid, fn in (("R1", r1_validate_first), ("R2", r2_seed_and_air), ("R3", r3_challenge_order),
                     ("R4", r4_ood_consistency), ("R5", r5_proof_of_work), ("R6", r6_results_and_deep),
-                    ("R7", r7_evaluate_constraints)):
+                    ("R7", r7_evaluate_constraints), ("R8", r8_coefficient_wiring)):
         ctx.guard(rid, fn)
     ctx.assume("numerical correctness of divisors / boundary polynomials / DEEP composition is value-level (C22/C23) and not decided")
     ctx.assume("user Air implementation evaluates the intended constraints")
